@@ -1482,6 +1482,9 @@ func handleClientMessage(c *webClient, m clientMessage) error {
 		if redirect := g.Description().Redirect; redirect != "" {
 			// We normally redirect at the HTTP level, but the group
 			// description could have been edited in the meantime.
+			// AddClient has made us a member, undo that.
+			c.group = g
+			leaveGroup(c)
 			username := c.username
 			return c.write(clientMessage{
 				Type:     "joined",
